@@ -227,10 +227,10 @@ func checkAuthBits(c *km.Ctx, s *km.Sem, checkAuth *ssa.Function, rule string) {
 
 	// --- success returns
 	for _, rc := range s.RetCases(checkAuth) {
-		if len(rc.Ret.Results) != 2 || !km.IsNilConst(rc.Ret.Results[1]) {
+		if len(rc.Results) != 2 || !km.IsNilConst(rc.Results[1]) {
 			continue
 		}
-		v := km.Unwrap(rc.Ret.Results[0])
+		v := km.Unwrap(rc.Results[0])
 		a, isAlloc := v.(*ssa.Alloc)
 		switch {
 		case isAlloc && allocStoresWhole(a, jwtInfo):
@@ -347,7 +347,7 @@ func checkIPRestrictedHelper(c *km.Ctx, s *km.Sem, rule string) {
 	}}
 	autoErrNil := primErrNil("isAutomationUser err==nil", RS+"isAutomationUser", 1)
 	for _, rc := range s.RetCases(fn) {
-		if len(rc.Ret.Results) != 4 || !km.IsNilConst(rc.Ret.Results[2]) || !km.IsNilConst(rc.Ret.Results[3]) {
+		if len(rc.Results) != 4 || !km.IsNilConst(rc.Results[2]) || !km.IsNilConst(rc.Results[3]) {
 			continue
 		}
 		var missing []string
